@@ -5,4 +5,8 @@ S(n) == <<n>>
 \* none, exact 2, lower-only 2..., upper-only ...2, multi-item 1...1, 3...4
 Decls == { <<>>, << <<S(2), S(2)>> >>, << <<S(2), <<>>>> >>, << <<<<>>, S(2)>> >>, << <<S(1), S(1)>>, <<S(3), S(4)>> >> }
 Widths == {1, 3}
+\* thorough tier: also 0..., ...0 (only the empty cell), 1...3, exact 5, the two-item 2, 4...5 and three items
+DeepDecls == Decls \cup { << <<S(0), <<>>>> >>, << <<<<>>, S(0)>> >>, << <<S(1), S(3)>> >>, << <<S(5), S(5)>> >>,
+                          << <<S(2), S(2)>>, <<S(4), S(5)>> >>, << <<S(1), S(1)>>, <<S(3), S(3)>>, <<S(6), <<>>>> >> }
+DeepWidths == {1, 2, 3, 5}
 =============================================================================
